@@ -968,3 +968,77 @@ Proof.
         rewrite Rabs_Ropp. symmetry. apply Rabs_pos_eq. lra. }
   rewrite !exp_plus, exp_Ropp, !exp_ln by lra. field. lra.
 Qed.
+
+(* ------------------------------------------------------------------ prime priors of Angle / AnglePair *)
+(* the densities are what their names say: derivatives of the distribution functions *)
+Lemma chi2_is_density : forall r, 0 < r ->
+  is_derive (fun t => 1 - exp (- (t * t) / 2)) r (exp (chi2_logpdf r)).
+Proof.
+  intros r Hr. unfold chi2_logpdf. auto_derive; [exact I|].
+  replace (ln r - r * r / 2) with (ln r + (- (r * r) * / 2)) by field.
+  rewrite exp_plus, exp_ln by exact Hr. field.
+Qed.
+
+Lemma sine_is_density : forall a, 0 < a < PI ->
+  is_derive (fun t => (1 - cos t) / 2) a (exp (sine_logpdf a)) /\ (1 - cos 0) / 2 = 0 /\ (1 - cos PI) / 2 = 1.
+Proof.
+  intros a Ha. assert (Hs : 0 < sin a) by (apply sin_gt_0; lra).
+  split; [|split].
+  - unfold sine_logpdf. rewrite exp_ln by lra. auto_derive; [exact I|field].
+  - rewrite cos_0. field.
+  - rewrite cos_PI. field.
+Qed.
+
+(* log_2d_cartesian_prior_sine at the image of (th, r): [sine(s th) + chi2(r)] - ln r, constant 0 *)
+Theorem prime_prior_polar_sine : forall s th r, 0 < r -> 0 < sin (s * th) ->
+  prior2d_sine (polar_x s th r) (polar_y s th r) = (sine_logpdf (s * th) + chi2_logpdf r) - ln r.
+Proof.
+  intros s th r Hr Hs. unfold prior2d_sine, polar_x, polar_y, sine_logpdf, chi2_logpdf.
+  replace (r * cos (s * th) * (r * cos (s * th)) + r * sin (s * th) * (r * sin (s * th)))
+    with (r * r * ((sin (s * th))² + (cos (s * th))²)) by (unfold Rsqr; ring).
+  rewrite sin2_cos2, Rmult_1_r.
+  replace (r * sin (s * th) / 2) with (r * (sin (s * th) / 2)) by field.
+  rewrite !ln_mult by lra. field.
+Qed.
+
+Theorem prime_prior_polar_uniform : forall s th r k,
+  prior2d (polar_x s th r) (polar_y s th r) k = chi2_logpdf r - ln r - ln k.
+Proof.
+  intros. unfold prior2d, polar_x, polar_y, chi2_logpdf.
+  replace (r * cos (s * th) * (r * cos (s * th)) + r * sin (s * th) * (r * sin (s * th)))
+    with (r * r * ((sin (s * th))² + (cos (s * th))²)) by (unfold Rsqr; ring).
+  rewrite sin2_cos2. field.
+Qed.
+
+(* AnglePair, isotropic prior + chi(3) radius: the inlined prime prior equals prior - log_J exactly *)
+Theorem prime_prior_sphere : forall a v r, 0 < r ->
+  (0 < sin v -> prior3d (azzen_x a v r) (azzen_y a v r) (azzen_z a v r)
+                = (iso_logpdf (sin v) + chi3_logpdf r) - (2 * ln r + ln (sin v))) /\
+  (0 < cos v -> prior3d (radec_x a v r) (radec_y a v r) (radec_z a v r)
+                = (iso_logpdf (cos v) + chi3_logpdf r) - (2 * ln r + ln (cos v))).
+Proof.
+  intros a v r Hr. destruct (prime_prior_spherical a v r) as [E1 E2].
+  assert (HP : 0 < PI) by apply PI_RGT_0.
+  assert (Hc : forall t, 0 < t ->
+     - (3 / 2) * ln (2 * PI) - r * r / 2 = ln (t / 2) - ln (2 * PI) + (/ 2 * ln (2 / PI) + 2 * ln r - r * r / 2) - (2 * ln r + ln t)).
+  { intros t Ht. unfold Rdiv. rewrite !ln_mult, !ln_Rinv by (try apply Rinv_0_lt_compat; lra). field. }
+  split; intros Hpos; unfold prior3d, iso_logpdf, chi3_logpdf.
+  - rewrite E1. apply Hc; exact Hpos.
+  - rewrite E2. apply Hc; exact Hpos.
+Qed.
+
+(* the expressions evaluated by the tie denote log p - log_J *)
+Lemma pp_polar_uniform_den : forall a r, evalR [a; r] (pp_polar_uniform (V 1)) = chi2_logpdf r - ln r.
+Proof. intros. cbn [pp_polar_uniform e_chi2 evalR nth]. rewrite ev_c2. reflexivity. Qed.
+
+Lemma pp_polar_sine_den : forall a r s,
+  evalR [a; r; s] (pp_polar_sine (V 0) (V 1) (V 2)) = (sine_logpdf (a * s) + chi2_logpdf r) - ln r.
+Proof. intros. cbn [pp_polar_sine e_chi2 evalR nth]. rewrite !ev_c2. reflexivity. Qed.
+
+Lemma pp_sphere_den : forall a v r,
+  evalR [a; v; r] (pp_sphere true (V 1) (V 2)) = (iso_logpdf (sin v) + chi3_logpdf r) - (2 * ln r + ln (sin v)) /\
+  evalR [a; v; r] (pp_sphere false (V 1) (V 2)) = (iso_logpdf (cos v) + chi3_logpdf r) - (2 * ln r + ln (cos v)).
+Proof.
+  intros. split; cbn [pp_sphere evalR nth]; rewrite !ev_c2; unfold iso_logpdf, chi3_logpdf; field_simplify_eq; try ring;
+    try (apply Rgt_not_eq; apply PI_RGT_0).
+Qed.
